@@ -65,7 +65,7 @@ def run(ctx):
                 'thorough adds every section combination x equal/different versions x 8 names, plain and aliased. '
                 'pp case = (s1, s2) from literal/placeholder pools; thorough adds 155 templates x every s2 of length <=5 over {1 . - x}. '
                 'ws case = one dependency / parent / properties element (comments, CDATA, entities, attributes, white space, PIs inside or beside the addressed child) through the real writeString with the element\'s own version, a new one, or property values. '
-                'pom case = abstract pom (1-4 dependencies, dependencyManagement, 0-2 profiles, properties used as whole/prefix/suffix/two placeholders, ${project.version}) rendered with '
+                'pom case = abstract pom (1-4 dependencies, every third with a second declaration of one groupId:artifactId under another key (test-jar / classifier) and another version, dependencyManagement, 0-2 profiles, properties used as whole/prefix/suffix/two placeholders, ${project.version}) rendered with '
                 'comments / one-line forms / namespaces, x update subsets drawn from the real Read (all subsets when <=4 in thorough) + the no-update case (plain, comment or CDATA in <version>). '
                 'non-trivial = at least one update (npm, pom) or s1 with a placeholder and a non-"no" answer (pp); distinct = distinct case lines')
     ok, _ = ctx.lean_build(['Scalibr.Properties.C13', 'drv_c13'])
